@@ -324,6 +324,7 @@ func ruleRecCensus(c *Ctx) {
 		}
 	}
 	n := 0
+	guardDone := false
 	for _, comp := range sccs {
 		var names []string
 		for _, i := range comp {
@@ -333,9 +334,25 @@ func ruleRecCensus(c *Ctx) {
 		n++
 		desc := "recursive cycle {" + strings.Join(names, ", ") + "}"
 		all := strings.Join(names, " ")
+		inInclude := true
+		for _, i := range comp {
+			top := funcs[i]
+			for top.Parent() != nil {
+				top = top.Parent()
+			}
+			if top.Pkg == nil || !strings.HasSuffix(top.Pkg.Pkg.Path(), "internal/include") {
+				inInclude = false
+			}
+		}
 		switch {
-		case strings.Contains(all, "include.Loader") && !strings.Contains(all, "server."):
+		case inInclude:
 			c.ok("REC-CENSUS", names[0], desc, funcs[comp[0]].Pos(), "include recursion: guarded by the ancestor-set test and the depth limit (G-GUARD, G-DEPTH)")
+			if !guardDone {
+				guardDone = true
+				if ls := buildLoaderSSA(c, "G-GUARD"); ls != nil {
+					ruleLoaderGuard(c, ls)
+				}
+			}
 		case len(comp) == 1 && strings.Contains(all, "Settings"):
 			c.ok("REC-CENSUS", names[0], desc, funcs[comp[0]].Pos(), "settings recursion on a member of the argument (C19-TOTAL)")
 		default:
